@@ -674,3 +674,30 @@ package mail
 //@ func mail.Reader.Reset
 //@   requires[C11:wf] r != nil
 //@   ensures[C11:def] r.offset == 0 && len(r.buffer) == 0
+
+// ---------------------------------------------------------------------------
+// C10  Render -> parse -> render: what the parser must not put into the Msg
+//
+// The renderer derives Content-Type and Content-Transfer-Encoding from the parts; a parsed Msg that carried them
+// as generic headers would be rendered with duplicated (and, for multipart types, contradictory) fields.
+//@ pred sgkept(m *mail.Msg) = ghkept(m, "Content-Type") && ghkept(m, "Content-Transfer-Encoding")
+//@ func mail.parseEMLHeaders (mailHeader, msg) (err)
+//@   requires[C10:wf] msg != nil
+//@   ensures[C10:no-structural-generic-header] sgkept(msg)
+//@   loop 1 invariant[C10:kept] sgkept(msg)
+//@   loop 2 invariant[C10:kept] sgkept(msg)
+//@   loop 3 invariant[C10:kept] sgkept(msg) && len(commonHeaders) == 15 && (forall j :: 0 <= j && j < len(commonHeaders) ==> commonHeaders[j] != "Content-Type" && commonHeaders[j] != "Content-Transfer-Encoding")
+//@ func mail.parseEMLContentTypeCharset (mailHeader, msg)
+//@   requires[C10:wf] msg != nil
+//@   ensures[C10:no-structural-generic-header] sgkept(msg)
+//@ func mail.parseEMLEncoding (mailHeader, msg)
+//@   requires[C10:wf] msg != nil
+//@   ensures[C10:no-structural-generic-header] sgkept(msg)
+//@ func mail.parseEMLBodyParts (parsedMsg, bodybuf, msg) (err)
+//@   requires[C10:wf] msg != nil
+//@   ensures[C10:no-structural-generic-header] sgkept(msg)
+//@ func mail.parseEML (parsedMsg, bodybuf, msg) (err)
+//@   requires[C10:wf] msg != nil
+//@   ensures[C10:no-structural-generic-header] sgkept(msg)
+//@ func mail.parseEMLMultipart (params, bodybuf, msg) (err)
+//@   requires[C10:wf] msg != nil
